@@ -3,6 +3,8 @@
 EXTENDS PySrc
 ASSUME Total
 ASSUME ChildInsideParent
+ASSUME MarkInsideLine
+ASSUME EmitMarkTable
 ASSUME EnvsJson
 ASSUME Emit
 ASSUME PrintT("UNIVERSE " \o ToString(Cardinality(Exprs)))
